@@ -1,3 +1,39 @@
-//! c11: see units.rs
-pub use crate::units::exec;
-pub fn gen(o: &crate::Opts, sink: &mut dyn FnMut(Vec<i64>, String)) { crate::units::gen_mode(o, 0, sink) }
+//! C11: driver-level attribution sweep (units.rs, mode 0) plus authority-level multi-driver
+//! configurations over the bus (cases prefixed with 100).
+use crate::{c10, util::*, Opts};
+pub fn exec(c: &[i64]) -> Vec<i64> { if c[0] == 100 { crate::authrig::exec(&c[1..]) } else { crate::units::exec(c) } }
+pub fn gen(o: &Opts, sink: &mut dyn FnMut(Vec<i64>, String)) {
+    crate::units::gen_mode(o, 0, sink);
+    // multi-driver configurations incl. the shipped ones: frames from each unit (also with device
+    // error codes), from unconfigured sources, requests; a cycle after each to see who was credited
+    let lists: [Vec<(i64, i64, Option<i64>, i64)>; 4] = [
+        vec![(4, 0x6a, None, 1), (4, 0x6b, None, 1), (4, 0x6c, None, 1), (4, 0x6d, None, 1), (5, 0x7a, None, 1)],
+        vec![(7, 0x00, Some(0x11), 1), (2, 0x12, None, 1), (1, 0x4a, None, 1)],
+        vec![(1, 0x4a, None, 0), (6, 0x00, None, 0), (3, 0x20, None, 0), (5, 0x7a, None, 0)],
+        vec![(4, 0x6a, None, 0), (0, 0x55, None, 0), (4, 0x6b, None, 0), (2, 0x12, None, 0)],
+    ];
+    let n = if o.tier_thorough { 8_000 } else { 800 };
+    let mut k: u64 = 0;
+    for j in 0..n {
+        k += 1; if !mine(o, k + 7) { continue; }
+        let mut rng = Rng::new(o.seed, 11_000_000 + j);
+        let drivers = &lists[(j % 4) as usize];
+        let mut c = vec![100]; c.extend(c10::config(drivers));
+        let len = 2 + rng.below(8);
+        for _ in 0..len {
+            match rng.below(6) {
+                0 => c.extend(c10::foreign(&mut rng)),
+                1 => { // a frame from a configured address but of another unit's kind
+                    let d = *rng.pick(drivers); let e = *rng.pick(drivers);
+                    c.extend(c10::frame_from(e.0, d.1, &mut rng)); }
+                _ => { let d = *rng.pick(drivers);
+                    let mut f = c10::frame_from(d.0, d.1, &mut rng);
+                    // device error codes in the payload (encoder state word, inclinometer status, vecraft state)
+                    if rng.chance(1, 3) { match d.0 { 4 => { f[9] = 0x00; f[10] = 0xee; } 5 => { f[9] = 0xe0; } 1 | 2 => { f[3] = 0xfa; } _ => {} } }
+                    c.extend(f); }
+            }
+            c.push(2);
+        }
+        sink(c, String::new());
+    }
+}
